@@ -32,7 +32,7 @@ ASSUMPTIONS = [
     "byte identity is checked on the files the public entry points write",
 ]
 BUDGET = {
-    "quick": {"shards": 16, "examples": 2, "wall": 110, "seeds": 4, "batch": 3},
+    "quick": {"shards": 16, "examples": 2, "wall": 110, "seeds": 4, "batch": 2},
     "thorough": {"shards": 16, "examples": 100, "wall": 900, "seeds": 24, "batch": 6},
 }
 
